@@ -6,7 +6,55 @@
 pub use ::std::{convert, marker, mem, ops};
 
 pub mod sync {
-    pub use ::std::sync::{Arc, Mutex, MutexGuard};
+    pub use ::std::sync::Arc;
+
+    // Sequential stand-in for std::sync::Mutex: in a sequential execution a lock is always free; taking it while it
+    // is held is a self-deadlock and is reported.  (std's futex mutex makes CBMC explore the contended spin path.)
+    pub struct Mutex<T> {
+        held: ::std::cell::Cell<bool>,
+        v: ::std::cell::UnsafeCell<T>,
+    }
+    unsafe impl<T: Send> Sync for Mutex<T> {}
+    unsafe impl<T: Send> Send for Mutex<T> {}
+    #[derive(Debug)]
+    pub struct Poisoned;
+    pub struct MutexGuard<'a, T> {
+        m: &'a Mutex<T>,
+    }
+    impl<T> Mutex<T> {
+        pub const fn new(v: T) -> Self {
+            Self { held: ::std::cell::Cell::new(false), v: ::std::cell::UnsafeCell::new(v) }
+        }
+        pub fn lock(&self) -> Result<MutexGuard<'_, T>, Poisoned> {
+            assert!(!self.held.get(), "mutex locked twice by the same (only) thread: self-deadlock");
+            self.held.set(true);
+            Ok(MutexGuard { m: self })
+        }
+        pub fn try_lock(&self) -> Result<MutexGuard<'_, T>, Poisoned> {
+            if self.held.get() {
+                Err(Poisoned)
+            } else {
+                self.held.set(true);
+                Ok(MutexGuard { m: self })
+            }
+        }
+    }
+    impl<'a, T> ::std::ops::Deref for MutexGuard<'a, T> {
+        type Target = T;
+        fn deref(&self) -> &T {
+            unsafe { &*self.m.v.get() }
+        }
+    }
+    impl<'a, T> ::std::ops::DerefMut for MutexGuard<'a, T> {
+        fn deref_mut(&mut self) -> &mut T {
+            unsafe { &mut *self.m.v.get() }
+        }
+    }
+    impl<'a, T> Drop for MutexGuard<'a, T> {
+        fn drop(&mut self) {
+            self.m.held.set(false);
+        }
+    }
     pub mod atomic {
         pub use ::std::sync::atomic::Ordering;
         use ::std::cell::UnsafeCell;
@@ -80,18 +128,24 @@ pub mod sync {
             fn addr(&self) -> usize {
                 self as *const Self as usize
             }
+            // Extraction builds (cfg uazu_vstd_scripted, set by the driver for the waker extraction harnesses only):
+            // every operation is logged and returns the next scripted value.  All other builds: plain sequential
+            // semantics, nothing logged, no global state read (reading a mode flag from a static would make every
+            // returned value symbolic for CBMC).
+            #[cfg(uazu_vstd_scripted)]
             fn rmw(&self, op: u8, arg: usize, ord: Ordering, f: impl FnOnce(usize) -> usize) -> usize {
                 let t = trace();
-                let cur = unsafe { *self.v.get() };
-                let old = if t.scripted {
-                    let k = t.k;
-                    t.k += 1;
-                    if k < EVMAX { t.script[k] } else { 0 }
-                } else {
-                    cur
-                };
+                let k = t.k;
+                t.k += 1;
+                let old = if k < EVMAX { t.script[k] } else { 0 };
                 unsafe { *self.v.get() = f(old) };
                 log_event(self.addr(), op, arg, ord_code(ord), old);
+                old
+            }
+            #[cfg(not(uazu_vstd_scripted))]
+            fn rmw(&self, _op: u8, _arg: usize, _ord: Ordering, f: impl FnOnce(usize) -> usize) -> usize {
+                let old = unsafe { *self.v.get() };
+                unsafe { *self.v.get() = f(old) };
                 old
             }
             pub fn fetch_or(&self, val: usize, ord: Ordering) -> usize {
